@@ -9,6 +9,7 @@ import Driver.Heap
 import Driver.Assoc
 import Driver.Shape
 import Driver.Loader
+import Driver.Borrow
 /-! `grdriver <mode>`: one input line → one output line (DESIGN.md §2 "line protocol") -/
 open Driver
 
@@ -39,6 +40,7 @@ def main (args : List String) : IO UInt32 := do
   | ["lines"] => loop stdin stdout Heap.stepLines; return 0
   | ["shape"] => loop stdin stdout Shape.step; return 0
   | ["loader"] => loop stdin stdout Loader.step; return 0
+  | ["borrow"] => loop stdin stdout Borrow.step; return 0
   | ["assoc"] => loop stdin stdout Assoc.step; return 0
   | ["lz4io"] => loopIO stdin stdout Lz4.stepIO; return 0
   | _ => IO.eprintln "usage: grdriver <mode>"; return 2
